@@ -54,6 +54,11 @@ func CloneInto(src, dst Model) {
 	}
 
 	aBytes, _ := json.Marshal(src)
+	// decoding JSON into an existing value merges into its maps instead of
+	// replacing them: start from a zero destination
+	if dstVal := reflect.ValueOf(dst); dstVal.Kind() == reflect.Ptr && !dstVal.IsNil() {
+		dstVal.Elem().Set(reflect.Zero(dstVal.Elem().Type()))
+	}
 	_ = json.Unmarshal(aBytes, dst)
 }
 
